@@ -218,6 +218,23 @@ def run_case(c):
                 po = gsm(*pa)
                 (po * torch.randn(po.shape, generator=g)).sum().backward()
                 gsm.zero_grad()
+            if c.get('pre_eval_B'):
+                # an evaluation pass before the training step: eval mode, no_grad, no backward, another batch size; nothing of it may survive.
+                # A recurrent model sees the evaluation batch as packed sequences.
+                gsm.eval()
+                with torch.no_grad():
+                    pa = make(c['pre_eval_B'])
+                    if c['tpl'] == 'rnn' and not c['a']['packed']:
+                        pl = torch.randint(1, c['a']['T'] + 1, (c['pre_eval_B'],), generator=g)
+                        pl[0] = c['a']['T']
+                        m.packed = True
+                        try:
+                            gsm(pa[0], pl)
+                        finally:
+                            m.packed = False
+                    else:
+                        gsm(*pa)
+                gsm.train()
             o = gsm(*args)
         except Exception as e:
             out['accepted'] = False
